@@ -139,7 +139,7 @@ impl<CharIter: Iterator<Item = char>> Lexer<CharIter> {
                 },
                 '+' | '-' => match self.peekable_char_stream.peek() {
                     Some('0'..='9') => self.number(),
-                    Some('.') => self.number(),
+                    Some('.') => self.sign_dot(),
                     _ => self.percular_identifier(),
                 },
                 '"' => self.string(),
@@ -413,8 +413,39 @@ impl<CharIter: Iterator<Item = char>> Lexer<CharIter> {
         }
     }
 
+    // a sign followed by a dot starts a decimal (+.5) or a peculiar identifier (+.a, -..)
+    fn sign_dot(&mut self) -> Result<Option<TokenData>> {
+        let mut literal = String::new();
+        literal.extend(self.current.take());
+        literal.extend(self.advance(1).take());
+        match self.peekable_char_stream.peek() {
+            Some('0'..='9') => {
+                self.digital10(&mut literal)?;
+                if let Some('e') = self.peekable_char_stream.peek() {
+                    self.number_suffix(&mut literal)?;
+                }
+                self.finish_number(Some(TokenData::Primitive(Primitive::Real(literal))))
+            }
+            _ => {
+                self.dot_subsequent(&mut literal)?;
+                if literal.len() == 2 {
+                    // a sign and a dot alone are neither a number nor an identifier
+                    return located_error!(
+                        SyntaxError::InvalidIdentifier(literal),
+                        Some(self.location)
+                    );
+                }
+                Ok(Some(TokenData::Identifier(literal)))
+            }
+        }
+    }
+
     fn number(&mut self) -> Result<Option<TokenData>> {
         let token = self.number_token()?;
+        self.finish_number(token)
+    }
+
+    fn finish_number(&mut self, token: Option<TokenData>) -> Result<Option<TokenData>> {
         // a number of any kind ends at a delimiter (or at the end of the input): 1/2/3, 1e2e3
         if let Some(c) = self.peekable_char_stream.peek() {
             Self::test_delimiter(Some(self.location), *c)?;
